@@ -26,7 +26,10 @@ RULE = ("random histories of 1..20 mutations (setters, bulk updates, re-construc
         "draws with unrelated objects interleaved, and a fresh twin; bulk draws (sample_n at n = 1000, 32767, 32768, 40000, 65536, "
         "100000 and sample_matrix with rows*cols >= 32768 for Normal/Exponential/Uniform/Bernoulli; thorough: all 13 kinds at "
         "n = 40000 and 300x150) run twice and as n single sample() calls from one seed, FNV digest + final generator state "
-        "compared with the model's sequential sampleN; non-trivial = distinct (kind, op, valid?, panicked?) "
+        "compared with the model's sequential sampleN; a deterministic exact-domain-boundary stratum (every validated parameter at its "
+        "boundary, +-1 ulp, +-EPSILON, +-EPSILON/2, b(1+-2^-52), +-0, +-smallest subnormal through new / setter / update; for "
+        "Uniform, DiscreteUniform, Pareto, Beta, Gamma pairs equal / adjacent / crossing by 1..3 ulps at 2^-1074 .. 1e300 through "
+        "new, both setter orders and update); non-trivial = distinct (kind, op, valid?, panicked?) "
         "step class and distinct (kind, op sequence) history")
 EXHAUSTIVE = {"quick": False, "thorough": False}
 NOT_PROVED = [
@@ -441,6 +444,176 @@ BULK_PARAMS = {
 }
 
 
+# ------------------------------------------------------------------------------------------------ exact domain boundaries
+EPS = 2.0 ** -52
+TINY = 5e-324  # smallest subnormal
+
+
+def ulps(x, k):
+    """x advanced by k units in the last place (k may be negative)"""
+    for _ in range(abs(k)):
+        x = math.nextafter(x, math.inf if k > 0 else -math.inf)
+    return x
+
+
+def around(b):
+    """The boundary itself, its two neighbours, b +- EPSILON, b +- EPSILON/2, b (1 +- 2^-52), +-0, +- smallest subnormal
+    (distinct bit patterns, in a fixed order)."""
+    vals = [b, ulps(b, 1), ulps(b, -1), b + EPS, b - EPS, b + EPS / 2, b - EPS / 2, b * (1 + EPS), b * (1 - EPS),
+            0.0, -0.0, TINY, -TINY]
+    seen, out = set(), []
+    for v in vals:
+        h = fhex(v)
+        if h not in seen:
+            seen.add(h)
+            out.append(v)
+    return out
+
+
+# boundaries of each value class
+CLASS_BOUNDS = {"pos": [0.0], "nonneg": [0.0], "prob": [0.0, 1.0], "real": [0.0], "posnat": [0.0, 1.0], "nat": [0.0, 1.0]}
+PAIR_MAGS = [TINY, 2.0 ** -30, 0.1 + 0.2, 1.0, 2.0, 2.0 ** 52, 1e300]
+
+
+def float_pairs():
+    """(lower, upper, crossing) : equal, adjacent in both orders, crossing by 1, 2, 3 ulps, at the magnitudes of PAIR_MAGS
+    (0.1 + 0.2 against 0.3 included), both signs."""
+    out = []
+    for m in PAIR_MAGS:
+        for sgn in (1.0, -1.0):
+            x = sgn * m
+            for k in (0, 1, 2, 3):
+                y = ulps(x, k)
+                out.append((x, y, 0))
+                if k:
+                    out.append((y, x, k))
+    out += [(0.3, 0.1 + 0.2, 0), (0.1 + 0.2, 0.3, 1), (-0.0, 0.0, 0), (0.0, -0.0, 0), (-TINY, TINY, 0), (TINY, -TINY, 2)]
+    return out
+
+
+def int_pairs():
+    out = []
+    for m in (0, 1, -1, 2 ** 31, -(2 ** 31), 2 ** 52, 2 ** 53, 9 * 10 ** 18, -9 * 10 ** 18):
+        for k in (0, 1, 2, 3):
+            out.append((m, m + k, 0))
+            if k:
+                out.append((m + k, m, k))
+    return out
+
+
+def gen_boundary(cover):
+    """Deterministic stratum: every validated parameter of every distribution exactly at, one ulp beside, EPSILON and
+    EPSILON/2 beside its domain boundary, through the constructor, through the setter and through `update`; and for the
+    two-parameter kinds pairs that are equal / adjacent / crossing by 1..3 ulps, reached through `new`, through the two
+    setters in both orders, and through `update`.  Judged like every other step (setters / update accept exactly what the
+    constructor accepts, accepted = fresh twin, rejected = untouched) and tied bit for bit to the record model."""
+    def count(k, n=1):
+        cover[k] = cover.get(k, 0) + n
+
+    lines = []
+    for kind in KINDS:
+        sig, fields, dom = SPEC[kind]
+        cls = PCLASS[kind]
+        dflt = list(BULK_PARAMS[kind])
+        blocks = []
+        # ---- one parameter at a time
+        for i, c in enumerate(cls):
+            if c in ("lo_f", "hi_f", "lo_i", "hi_i"):
+                continue
+            vals = []
+            for b in CLASS_BOUNDS[c]:
+                vals += around(b)
+            if sig[i] == "f":
+                blk = [("new", dflt)]
+                for v in vals:
+                    blk += [("set", i, v)]
+                    count("boundary-set")
+                blocks.append(blk)
+                blk = [("new", dflt)]
+                for v in vals:
+                    blk += [("new", [v if j == i else x for j, x in enumerate(dflt)])]
+                    count("boundary-new")
+                blocks.append(blk)
+            else:
+                ints = [0, 1, 2] + ([U64MAX] if c == "posnat" else [])
+                blk = [("new", dflt)]
+                for v in ints:
+                    blk += [("set", i, v), ("new", [v if j == i else x for j, x in enumerate(dflt)])]
+                    count("boundary-set")
+                    count("boundary-new")
+                blocks.append(blk)
+            blk = [("new", dflt)]
+            for v in vals:
+                blk += [("upd", [v if j == i else float(x) for j, x in enumerate(dflt)])]
+                count("boundary-upd")
+            blocks.append(blk)
+        # ---- pairs
+        if kind in ("uniform", "beta", "gamma", "pareto"):
+            for lo, hi, cross in float_pairs():
+                big = 2.0 * max(abs(lo), abs(hi)) + 1.0
+                if kind == "uniform":
+                    base = [-big, big]
+                else:
+                    base = dflt
+                    if abs(lo) > 1e100 and kind != "pareto":
+                        continue  # shapes of 1e300 are the business of C03; the positivity guard is covered at 2^52
+                blocks.append([("new", base), ("set", 0, lo), ("set", 1, hi),
+                               ("new", base), ("set", 1, hi), ("set", 0, lo),
+                               ("new", base), ("upd", [lo, hi]), ("new", [lo, hi])])
+                count("boundary-pairs-crossing" if cross else "boundary-pairs-ordered")
+                count("boundary-set", 4)
+                count("boundary-upd")
+                count("boundary-new")
+        if kind == "discreteuniform":
+            for lo, hi, cross in int_pairs():
+                big = 2 * max(abs(lo), abs(hi)) + 1 if max(abs(lo), abs(hi)) < 2 ** 60 else I64MAX
+                base = [-big, big]
+                blk = [("new", base), ("set", 0, lo), ("set", 1, hi), ("new", base), ("set", 1, hi), ("set", 0, lo),
+                       ("new", base), ("new", [lo, hi])]
+                count("boundary-set", 4)
+                count("boundary-new")
+                if max(abs(lo), abs(hi)) <= 2 ** 53 and float(lo) == lo and float(hi) == hi:
+                    blk += [("new", base), ("upd", [float(lo), float(hi)])]
+                    count("boundary-upd")
+                    if max(abs(lo), abs(hi)) < 2 ** 40:
+                        blk += [("new", base), ("upd", [lo + (0.5 if lo >= 0 else -0.5), hi + (0.5 if hi >= 0 else -0.5)])]
+                        count("boundary-upd")
+                blocks.append(blk)
+                count("boundary-pairs-crossing" if cross else "boundary-pairs-ordered")
+        if kind == "uniform":
+            # one bound moved around the other one, EPSILON-wise
+            for lo, hi in ((0.0, 0.3), (0.0, 1.0), (-1.0, 2.0), (-0.3, -0.1), (0.0, 0.0), (0.0, 2.0 ** -30), (1.0, 1.0 + EPS)):
+                blk = [("new", [lo, hi])]
+                for v in around(hi):
+                    blk += [("set", 0, v), ("new", [lo, hi])]
+                    count("boundary-set")
+                blocks.append(blk)
+                blk = [("new", [lo, hi])]
+                for v in around(lo):
+                    blk += [("set", 1, v), ("new", [lo, hi])]
+                    count("boundary-set")
+                blocks.append(blk)
+                blk = [("new", [lo, hi])]
+                for v in around(hi):
+                    blk += [("upd", [v, hi]), ("new", [v, hi])]
+                    count("boundary-upd")
+                    count("boundary-new")
+                blocks.append(blk)
+        # ---- pack the blocks into request lines
+        probes = [0, 1, 15] if kind in DISCRETE else [0.5, 1.0, 3.0]
+        cur = []
+        for blk in blocks + [None]:
+            if blk is None or len(cur) + len(blk) > 48:
+                if cur:
+                    lines.append(render(kind, 12345, probes, cur))
+                    count("boundary-histories")
+                    count("boundary-steps", len(cur))
+                cur = []
+            if blk:
+                cur = cur + blk
+    return lines
+
+
 def render_bulk(kind, seed, rows, cols, args):
     return " ".join(["bulk", kind, str(seed), str(rows), str(cols)] + [show_arg(t, v) for t, v in zip(SPEC[kind][0], args)])
 
@@ -467,7 +640,7 @@ def gen_bulk(rng, tier, cover):
 def gen(rng, tier):
     nseeds = 100 if tier == "quick" else 400
     cover = {}
-    lines = gen_bulk(rng.fork("bulk"), tier, cover)
+    lines = gen_bulk(rng.fork("bulk"), tier, cover) + gen_boundary(cover)
     for s in range(nseeds):
         for kind in KINDS:
             r = rng.fork("%s/%d" % (kind, s))
